@@ -13,7 +13,7 @@ from . import decoder, payload, snapshot
 from .common import fresh_dir, import_darr, outcome_of, exc_class, sha, jsonable
 from .engines.opgraph import StepResult, System
 
-TRUNC_KS = [0, 1, -1, 'len', 'len+1', '-len-1', 1.0, '1']
+TRUNC_KS = [0, 1, -1, 'len', 'len+1', '-len-1', 1.0, '1', 'np1']
 
 
 class ArrayModel:
@@ -161,9 +161,9 @@ class ArraySys(System):
             else:
                 disabled += 1
         full = 'model' in self.oracles
-        ops += [('append', 'Z'), ('iterappend', 'empty'), ('append', 'badtrail')]
+        ops += [('append', 'Z'), ('iterappend', 'empty'), ('append', 'badtrail'), ('append', 'badrank')]
         if full:
-            ops += [('append', 'badrank'), ('append', 'unconv'), ('append', 'badtrail0'), ('append', 'badzero')]
+            ops += [('append', 'unconv'), ('append', 'badtrail0'), ('append', 'badzero')]
         if n > 0:
             ops += [('assign', 0, 'V1'), ('assign', -1, 'V2')]
         ops += [('truncate', k) for k in (TRUNC_KS if full else [0, -1, 'len+1'])]
@@ -182,6 +182,8 @@ class ArraySys(System):
     # ------------------------------------------------------------------ helpers
     def _k(self, k):
         n = len(self.model.arr)
+        if k == 'np1':
+            return np.int64(1)            # not an int: must be refused with TypeError, like 1.0
         return {'len': n, 'len+1': n + 1, '-len-1': -n - 1}.get(k, k) if isinstance(k, str) and k != '1' else k
 
     def _visible(self):
